@@ -89,6 +89,13 @@ def shape(rec):
     return tuple(s)
 
 
+def drift(ctx, where, detail):
+    """model drift is reported per case up to a cap, the rest is counted"""
+    ctx.add("drift_cases")
+    if ctx.cov["drift_cases"] <= 8:
+        ctx.model_drift(where, detail)
+
+
 def brief(rec):
     return {k: v for k, v in rec.items() if k not in ("imm",)}
 
@@ -136,14 +143,14 @@ def audit(ctx, mc, recs, verdict, exp_of):
             shapes_ok.add(shape(rec))
             if v == "mismatch":
                 # implementation differs from the canonical bytes but IS the requested instruction
-                ctx.model_drift("X64Asm " + rec["m"], "impl %s, spec %s, both decode to %s" %
+                drift(ctx, "X64Asm " + rec["m"], "impl %s, spec %s, both decode to %s" %
                                 (rec["bytes"], exp_of.get(i), A.render(want)))
             continue
         key = "%s:%s" % (rec["m"], c[0])
         ent = failures.setdefault(key, [0, None])
         ent[0] += 1
         if ent[1] is None:
-            ent[1] = {"record": brief(rec), "requested": A.render(want), "llvm_mc": d, "decoded": A.render(got),
+            ent[1] = {"record": brief(rec), "instruction_bytes": A.instr_slice(rec)[0], "requested": A.render(want), "llvm_mc": d, "decoded": A.render(got),
                       "difference": c[1], "spec_bytes": exp_of.get(i, rec["bytes"] if v == "match" else None),
                       "impl_equals_spec": v == "match"}
     # the specification's own bytes where they differ from the implementation's: must be the requested instruction
@@ -207,24 +214,32 @@ def lands(items, nl, code):
 def label_programs(ctx, cfgs):
     total = agree = 0
     for name, cfg, workers, tmo in cfgs:
-        r = tlc("X64AsmLabels", cfg=cfg, cwd=CODEC, workers=workers, timeout=tmo, heap="4g")
+        r = tlc("X64AsmLabels", cfg=cfg, cwd=CODEC, workers=workers, timeout=tmo, heap="4g" if ctx.quick else "8g")
         tlc_must_pass(r, "label state machine " + name)
         ctx.tlc_stats(r, "X64AsmLabels %s: JumpsLand, Positions, StateIsRun" % name)
-        rows = tlc_rows(r)
-        if not rows:
-            raise ToolError("X64AsmLabels emitted no programs")
         pin = os.path.join(ctx.work, name + ".progs.ndjson")
         pout = os.path.join(ctx.work, name + ".out.ndjson")
-        with open(pin, "w") as f:
-            for i, row in enumerate(rows):
-                f.write(json.dumps({"id": i, "nl": row["nl"], "items": row["items"]}) + "\n")
-        harness(["labels", pin, pout])
-        outs = [json.loads(l) for l in open(pout)]
-        if len(outs) != len(rows):
-            raise ToolError("label replay returned %d results for %d programs" % (len(outs), len(rows)))
-        log(f"TLC X64AsmLabels {name}: {r.distinct} states, {len(rows)} programs, {r.seconds:.0f}s")
-        for o in outs:
-            row = rows[o["id"]]
+        prow = os.path.join(ctx.work, name + ".rows.ndjson")
+        nrows = 0
+        with open(pin, "w") as f, open(prow, "w") as g:        # streamed: the deep configurations emit 10^5..10^6 rows
+            for l in r.out.splitlines():
+                if l.startswith('"{'):
+                    row = json.loads(json.loads(l))
+                    f.write(json.dumps({"id": nrows, "nl": row["nl"], "items": row["items"]}) + "\n")
+                    g.write(json.dumps(row) + "\n")
+                    nrows += 1
+        r.out = ""
+        if not nrows:
+            raise ToolError("X64AsmLabels emitted no programs")
+        harness(["labels", pin, pout], timeout=1800)
+        log(f"TLC X64AsmLabels {name}: {r.distinct} states, {nrows} programs, {r.seconds:.0f}s")
+        fo, fr = open(pout), open(prow)
+        nout = 0
+        for lo, lr in zip(fo, fr):
+            o, row = json.loads(lo), json.loads(lr)
+            if o["id"] != nout:
+                raise ToolError("label replay results out of order")
+            nout += 1
             total += 1
             items = [{k: v for k, v in it.items() if v not in ("", [], 0) or k == "op"} for it in row["items"]]
             if row["refused"]:
@@ -246,12 +261,14 @@ def label_programs(ctx, cfgs):
                 if total % 997 == 1:
                     ctx.sample({"label_program": items, "bytes": len(exp)})
             elif lands(row["items"], row["nl"], o["bytes"]):
-                ctx.model_drift("X64AsmLabels", "other encoding, every jump lands: %s" % json.dumps(items))
+                drift(ctx, "X64AsmLabels", "other encoding, every jump lands: %s" % json.dumps(items))
             else:
                 ctx.violation("label program: a jump does not land on its label / bytes differ from the specification: "
                               "%s expected %s got %s" % (json.dumps(items), exp[-12:], o["bytes"][-12:]),
                               {"items": row["items"], "nl": row["nl"], "expected": exp, "impl_bytes": o["bytes"]},
                               key="labels:" + "+".join(sorted({it["m"] for it in row["items"] if it["op"] == "ins"})))
+        if nout != nrows:
+            raise ToolError("label replay returned %d results for %d programs" % (nout, nrows))
     ctx.add("label_programs", total)
     ctx.add("traces_validated_against_impl", agree)
     return total, agree
@@ -351,10 +368,11 @@ def run(ctx):
         case["records_in_class"] = n
         if case["impl_equals_spec"]:
             msg = ("%s: implementation and specification agree on %s but llvm-mc decodes it as `%s`, requested `%s` "
-                   "(%s; %d records)" % (key, case["record"]["bytes"], case["decoded"], case["requested"], case["difference"], n))
+                   "(%s; %d records)" % (key, case["instruction_bytes"], case["decoded"], case["requested"], case["difference"], n))
         else:
             msg = ("%s: the assembler emitted %s = `%s`, requested `%s` (%s; specification: %s; %d records)" %
-                   (key, case["record"]["bytes"], case["decoded"], case["requested"], case["difference"], case["spec_bytes"], n))
+                   (key, case["instruction_bytes"], case["decoded"], case["requested"], case["difference"],
+                    case["spec_bytes"] if len(case["spec_bytes"] or []) <= 16 else "...", n))
         ctx.violation(msg, case, key=key)
     # a mismatch that the audit did not classify cannot exist (every non-refused record is audited)
     log(f"[{time.time() - ctx.t0:.0f}s] records={len(recs)} match={n_match} refused_ok={counts['refused_ok']} over_refused={counts['over_refused']} "
@@ -370,7 +388,8 @@ def run(ctx):
     else:
         cfgs = [("full-pads-4", label_cfg(ctx, "labels_t1", 2, 4, {0, 1} | set(window), [rnd.choice(ccn), rnd.choice(ccn)],
                                           [rnd.randrange(8), 8 + rnd.randrange(8)]), 12, 3000),
-                ("deep-5", label_cfg(ctx, "labels_t2", 2, 5, {0, 121, 124, 126, 127, 128}, [rnd.choice(ccn)], [rnd.randrange(16)]), 12, 3000)]
+                ("deep-5", label_cfg(ctx, "labels_t2", 2, 5, {0, 121, 124, 126, 127, 128}, [rnd.choice(ccn)], [rnd.randrange(16)]), 12, 3000),
+                ("deep-6", label_cfg(ctx, "labels_t3", 2, 6, {126, 127}, [rnd.choice(ccn)], [rnd.randrange(16)]), 12, 3000)]
     label_programs(ctx, cfgs)
     log(f"[{time.time() - ctx.t0:.0f}s] label programs done")
     negative_controls(ctx, mc, recs)
